@@ -231,6 +231,11 @@ def add_common(rng, c):
                 for row in c["w"][t]:
                     if all(F(x) == 0 for x in row):
                         row[0] = "-0.5"
+        if rng.random() < 0.3:
+            # bond weights in another unit (× 10^k): only their ratios enter ψ
+            k = rng.choice([-9, -6, 5])
+            c["w"] = [[[x if F(x) == 0 else f"{x}e{k}" for x in row] for row in fr] for fr in c["w"]]
+            c["wunit"] = k
     maxcn = max(len(r) for t in range(T) for r in c["nl"][t])
     c["Nmax"] = rng.choice([10, 10, maxcn, max(1, maxcn - 1), 30])
     d = rng.choice([100, 500, 2000])
